@@ -707,6 +707,12 @@ impl Rasn {
                     Some(&self.to_rust_title_case(&self.type_to_tokens(&member.ty)?.to_string())),
                 )?;
                 let ty = self.type_to_tokens(&member.ty)?;
+                // SET OF values are written as lists, like SEQUENCE OF values
+                let val = if matches!(member.ty, ASN1Type::SetOf(_)) {
+                    quote!(SetOf::from_vec(#val))
+                } else {
+                    val
+                };
                 let method_name = self.default_method_name(parent_name, &member.name);
                 output.append_all(quote! {
                     fn #method_name() -> #ty {
@@ -739,9 +745,13 @@ impl Rasn {
                 NotYetInplemented,
                 "Sequence values are currently unsupported!"
             )),
-            ASN1Type::SetOf(so) | ASN1Type::SequenceOf(so) => {
+            ASN1Type::SequenceOf(so) => {
                 let inner = self.type_to_tokens(&so.element_type)?;
                 Ok(quote!(SequenceOf<#inner>))
+            }
+            ASN1Type::SetOf(so) => {
+                let inner = self.type_to_tokens(&so.element_type)?;
+                Ok(quote!(SetOf<#inner>))
             }
             ASN1Type::ObjectIdentifier(_) => Err(error!(
                 NotYetInplemented,
